@@ -41,4 +41,67 @@ def jobs(tier, seed):
                      defines={"K": k, "M": m}, case={"k": k, "m": m},
                      unwind=34, unwindset={"harness.0": 1026}, expect=["liberasurecode_rs_vand_encode.ensures", "region_dot_product.requires"],
                      timeout=1200, mem_gb=4 if k + m <= 12 else 10, weight=(k + m) ** 2))
+    # ---- adapter (src/backends/rs_vand) and its fragments-needed planner
+    RSB = "src/backends/rs_vand/liberasurecode_rs_vand.c"
+    J.append(Job("rs.adapter", props=["C01", "C02", "C03", "C08", "C12", "C13", "C14", "C16", "C17"], layer="L3", strength="Pinf",
+                 title="liberasurecode_rs_vand adapter, (k,m) symbolic in [-1,33]^2, any subset of code-library symbols absent: init refuses k<1 / m<1 / incomplete library with nothing left behind, else w=16, one table reference; encode/decode/reconstruct forward their arguments unchanged and return 0 or the code's value; exit releases everything once; accepts exactly backend version 1.0.0",
+                 functions=["liberasurecode_rs_vand_init", "liberasurecode_rs_vand_exit", "liberasurecode_rs_vand_encode", "liberasurecode_rs_vand_decode", "liberasurecode_rs_vand_reconstruct",
+                            "liberasurecode_rs_vand_element_size", "liberasurecode_rs_vand_is_compatible_with"],
+                 replaced=["dlsym (assumed loader contract; any symbol may be absent)", "make_systematic_matrix / init / deinit / free_systematic_matrix / code-level encode, decode, reconstruct (contracts; enforced by rs.matrix, rs.encode, rs.decode, rs.reconstruct)"],
+                 repo_src=[RSB], harness=["harness/rs_backend.c", "harness/stub_env.c"], defines={"MODE": 1}, export_static=True, unwind=40, leak=True,
+                 expect=["C13/C17: an unsupported shape", "pass-through: data, parity and blocksize", "C12: liberasurecode_rs_vand accepts exactly"]))
+    pshapes = shapes_all() if tier == "thorough" else [(k, m) for (k, m) in shapes_all() if k + m <= 6] + [(10, 4), (12, 4), (4, 8), (31, 1), (1, 31)]
+    for (k, m) in pshapes:
+        J.append(Job("rs.planner@%d_%d" % (k, m), group="rs.planner", props=["C06", "C15"], layer="L3", strength="B",
+                     bound="request and exclude lists of up to min(k+m,10) entries each (5 when k+m>16) (any order, duplicates); quick tier: %d of the 496 shapes, thorough: all" % len(pshapes),
+                     title="liberasurecode_rs_vand_min_fragments, shape (%d,%d): symbolic request/exclude lists (any order, duplicates, up to min(k+m,10) entries each (5 when k+m>16)): succeeds iff >= k fragments remain; exactly k increasing in-range indexes disjoint from both lists, -1 terminated; lists untouched" % (k, m),
+                     functions=["liberasurecode_rs_vand_min_fragments", "convert_list_to_bitmap", "liberasurecode_rs_vand_init", "liberasurecode_rs_vand_exit"],
+                     replaced=["dlsym (loader contract)", "make_systematic_matrix etc. (contracts)"],
+                     repo_src=[RSB], harness=["harness/rs_backend.c", "harness/stub_env.c"], defines={"MODE": 2, "K": k, "M": m, "LL": min(k + m, 10) if k + m <= 16 else 5}, export_static=True,
+                     unwind=40, leak=True, case={"k": k, "m": m}, expect=["C06: the Reed-Solomon query succeeds exactly when"],
+                     assumptions=["sufficiency of any k fragments for Reed-Solomon is the MDS property of the closed-form generator (C04; algebra assumed, non-singularity checked per enumerated erasure set by rs.decode)"],
+                     timeout=900, mem_gb=4, weight=(k + m) ** 2))
+    # ---- decode / reconstruct per (shape, erasure set): the B part of the RS claims (DESIGN.md 2.5)
+    nmax = 7 if tier == "thorough" else 6
+    dshapes = [(k, m) for (k, m) in shapes_all() if k + m <= nmax]
+    rnd = random.Random(seed * 31 + 5)
+    for mode, fn, calls in ((1, "decode", 64), (2, "reconstruct", 48)):
+        for (k, m) in dshapes:
+            n = k + m
+            per = max(1, calls // (k * (1 if mode == 1 else max(1, m // 2 + 1))))
+            for lo in range(0, 1 << n, per):
+                hi = min((1 << n) - 1, lo + per - 1)
+                J.append(_dec_job(fn, mode, k, m, lo, hi, "P#", "", tier))
+        # sampled erasure sets of larger shapes (B): maximal sets |E| == m with a mix of data and parity
+        for (k, m) in ([(10, 4), (4, 8), (6, 6)] if tier == "quick" else [(10, 4), (4, 8), (6, 6), (12, 4), (8, 8), (16, 4), (20, 12)]):
+            n = k + m
+            for s_ in range(2 if tier == "quick" else 4):
+                e = rnd.sample(range(n), m if (k, m) != (20, 12) else 6)
+                mask = sum(1 << i for i in e)
+                J.append(_dec_job(fn, mode, k, m, mask, mask, "B", "sampled erasure sets (VERIF_SEED) of shapes with k+m > %d on ONE generic data vector (pairwise distinct non-zero words) instead of a basis; complete for every shape with k+m <= %d" % (nmax, nmax), tier))
+    for (k, m) in ([(10, 4), (4, 8), (6, 6)] if tier == "quick" else [(10, 4), (4, 8), (6, 6), (12, 4), (8, 8), (16, 4), (20, 12)]):
+        J.append(Job("rs.gtable@%d_%d" % (k, m), group="rs.gtable", props=["C01", "C02", "C03", "C04"], layer="L2", strength="P#",
+                     title="frozen generator table of shape (%d,%d) (used as constants by the sampled decode/reconstruct obligations) == closed form L_j(r)/L_j(k), every entry" % (k, m),
+                     functions=[], replaced=[], repo_src=[], harness=["harness/rs_decode.c"], defines={"K": k, "M": m, "MODE": 3}, unwind=34,
+                     case={"k": k, "m": m}, expect=["generator table == closed form"], mem_gb=8, timeout=1800, weight=k * k * (k + m)))
     return J
+
+
+def _dec_job(fn, mode, k, m, lo, hi, strength, bound, tier):
+    n = k + m
+    big = strength != "P#"
+    return Job("rs.%s@%d_%d.e=%d..%d" % (fn, k, m, lo, hi), group="rs." + fn + ("" if strength == "P#" else ".sampled"),
+               props=(["C01", "C02", "C04", "C15"] if mode == 1 else ["C03", "C02", "C15"]), layer="L2", strength=strength, bound=bound,
+               title=("liberasurecode_rs_vand_%s, shape (%d,%d), erasure sets with mask in [%d,%d]: <= m erasures => exact %s on the k scaled unit data vectors (linear map: exact on every data vector), blocksize symbolic, survivors untouched; > m => refused" % (
+                      fn, k, m, lo, hi, "data and parity" if mode == 1 else "destination (every missing destination)")),
+               functions=["liberasurecode_rs_vand_" + fn, "create_decoding_matrix", "gaussj_inversion", "get_first_k_available", "get_non_zero_diagonal",
+                          "swap_matrix_rows", "row_mult", "row_mult_and_add"],
+               replaced=["make_systematic_matrix (contract: closed form, enforced by rs.matrix)", "rs_galois_mult/inverse (contract: == gf16 spec)",
+                         "region_dot_product (contract at the ghost word, enforced by rsv.region_dot_product; product interpreted)"],
+               repo_src=[RSV], remove_bodies=["region_dot_product"], harness=["harness/rs_decode.c", "harness/stub_gf_spec.c"],
+               defines=dict({"K": k, "M": m, "MODE": mode, "MLO": "%du" % lo, "MHI": "%du" % hi}, **({"GENERIC": 1, "GTABLE": 1} if big else {})), case={"k": k, "m": m, "masks": [lo, hi]},
+               unwind=34, loop_bounds=[(r"mask <= MHI", hi - lo + 2)], object_bits=12,
+               expect=["C01/C04: any k of the k+m" if mode == 1 else "C03: reconstruct succeeds", "rs_galois_mult.requires"],
+               assumptions=[A_GFSPEC, "ghost-cell buffer model: each stripe buffer is one 2-byte object holding its 16-bit word at the ghost index; decode/reconstruct touch buffer contents only through region_dot_product (any other access fails a bounds obligation on the cell)",
+                            "algebra not mechanised: decode/reconstruct of a fixed erasure set is a GF(2^16)-linear map of the data (fixed coefficients, region_dot_product contract), so exactness on the k scaled unit vectors implies exactness for all data; the statement holds for every word of a longer buffer because the contract is word-wise"],
+               timeout=1800, mem_gb=12 if big else 6, weight=k ** 3 * (hi - lo + 1))
